@@ -23,6 +23,7 @@
 #include <thread>
 #include <mutex>
 #include <deque>
+#include <set>
 #include <memory>
 #include <sys/syscall.h>
 extern "C" {
@@ -49,6 +50,13 @@ struct WrapState {
   bool gate_eagain = false, eagain_ok = false; // C10: a would-block fault is only delivered to calls on a blocking socket (on a non-blocking one reporting it is correct)
 };
 static WrapState W;
+// descriptor ledger: every descriptor the library obtains (socket, accept, shm_open) must be closed by the library exactly once -
+// a close of a descriptor it does not hold (second close, foreign descriptor) and a descriptor still open after every object was
+// freed are both failures
+struct Ledger { std::mutex mx; std::set<int> open; long opened = 0, closed_ok = 0, bad_close = 0; int bad_fd = -1; bool on = false; };
+static Ledger LG;
+static void ledger_open(int fd) { if (fd < 0 || !LG.on) return; std::lock_guard<std::mutex> g(LG.mx); LG.open.insert(fd); LG.opened++; }
+static void ledger_close(int fd) { if (!LG.on) return; std::lock_guard<std::mutex> g(LG.mx); if (LG.open.erase(fd)) LG.closed_ok++; else { LG.bad_close++; LG.bad_fd = fd; } }
 static const Fault *consume(const char *call) {
   W.calls_total++;
   if (!W.armed || !pthread_equal(pthread_self(), W.owner)) return nullptr;
@@ -75,8 +83,8 @@ int vn_poll(struct pollfd *p, nfds_t n, int t) {
   ENTER; int r = poll(p, n, t); int e = errno; LEAVE; errno = e; return r;
 }
 int vn_connect(int fd, const struct sockaddr *a, socklen_t l) { const Fault *f = consume("connect"); if (f && f->kind == 1) { errno = EINTR; return -1; } ENTER; int r = connect(fd, a, l); int e = errno; LEAVE; errno = e; return r; }
-int vn_accept(int fd, struct sockaddr *a, socklen_t *l) { const Fault *f = consume("accept"); if (f && f->kind == 1) { errno = EINTR; return -1; } if (f && f->kind == 2) { errno = EAGAIN; return -1; } ENTER; int r = accept(fd, a, l); int e = errno; LEAVE; errno = e; return r; }
-int vn_socket(int d, int t, int p) { consume("socket"); return socket(d, t, p); }
+int vn_accept(int fd, struct sockaddr *a, socklen_t *l) { const Fault *f = consume("accept"); if (f && f->kind == 1) { errno = EINTR; return -1; } if (f && f->kind == 2) { errno = EAGAIN; return -1; } ENTER; int r = accept(fd, a, l); int e = errno; LEAVE; ledger_open(r); errno = e; return r; }
+int vn_socket(int d, int t, int p) { consume("socket"); int r = socket(d, t, p); int e = errno; ledger_open(r); errno = e; return r; }
 int vn_shutdown(int fd, int how) { consume("shutdown"); return shutdown(fd, how); }
 int vn_setsockopt(int fd, int l, int o, const void *v, socklen_t vl) { consume("setsockopt"); return setsockopt(fd, l, o, v, vl); }
 int vn_getsockopt(int fd, int l, int o, void *v, socklen_t *vl) { consume("getsockopt"); return getsockopt(fd, l, o, v, vl); }
@@ -85,7 +93,7 @@ int vn_getpeername(int fd, struct sockaddr *a, socklen_t *l) { consume("getpeern
 int vn_bind(int fd, const struct sockaddr *a, socklen_t l) { consume("bind"); return bind(fd, a, l); }
 int vn_listen(int fd, int b) { consume("listen"); return listen(fd, b); }
 int vn_fcntl(int fd, int cmd, ...) { va_list ap; va_start(ap, cmd); long arg = va_arg(ap, long); va_end(ap); consume("fcntl"); return fcntl(fd, cmd, arg); }
-int vn_close(int fd) { consume("close"); return close(fd); }
+int vn_close(int fd) { consume("close"); ledger_close(fd); return close(fd); }
 // sleeps: a planned interruption performs a real, shortened sleep and then reports EINTR exactly as POSIX specifies for the call
 int vn_clock_nanosleep(clockid_t c, int fl, const struct timespec *req, struct timespec *rem) {
   const Fault *f = consume("clock_nanosleep");
@@ -122,7 +130,7 @@ sem_t *vn_sem_open(const char *name, int oflag, ...) {
   const Fault *f = consume("sem_open"); if (f && f->kind == 1) { errno = EINTR; return SEM_FAILED; }
   return (oflag & O_CREAT) ? sem_open(name, oflag, mode, value) : sem_open(name, oflag);
 }
-int vn_shm_open(const char *n, int fl, mode_t m) { const Fault *f = consume("shm_open"); if (f && f->kind == 1) { errno = EINTR; return -1; } return shm_open(n, fl, m); }
+int vn_shm_open(const char *n, int fl, mode_t m) { const Fault *f = consume("shm_open"); if (f && f->kind == 1) { errno = EINTR; return -1; } int r = shm_open(n, fl, m); int e = errno; ledger_open(r); errno = e; return r; }
 }
 
 namespace {
@@ -706,7 +714,18 @@ Outcome run_c19(const Case &c) {
 }
 
 Outcome run_case(const Case &c) {
+  { std::lock_guard<std::mutex> g(LG.mx); LG.open.clear(); LG.opened = LG.closed_ok = LG.bad_close = 0; LG.bad_fd = -1; LG.on = true; }
   Outcome o = c.prop == "C09" ? run_c09(c) : c.prop == "C10" ? run_c10(c) : run_c19(c);
+  {
+    std::lock_guard<std::mutex> g(LG.mx); LG.on = false;
+    static const bool ledger_only = vl::env("VERIF_LEDGER_ONLY", "0") == "1";
+    if (ledger_only && !o.verdict.empty()) { o.verdict.clear(); o.klass.clear(); o.inconclusive = true; }   // the other oracles are reported by the property they belong to
+    if (o.verdict.empty() && !o.inconclusive) {
+      if (LG.bad_close) { o.klass = "fd-ledger"; o.verdict = "the library closed descriptor " + std::to_string(LG.bad_fd) + " which it did not hold (closed twice, or never obtained by it): " + std::to_string(LG.bad_close) + " such close call(s)"; }
+      else if (!LG.open.empty()) { o.klass = "fd-ledger"; o.verdict = "descriptor " + std::to_string(*LG.open.begin()) + " obtained by the library is still open after every object was freed (" + std::to_string(LG.open.size()) + " of " + std::to_string(LG.opened) + " opened)"; }
+      else if (LG.opened) vl::stats().count("descriptors_opened_and_closed_exactly_once", (uint64_t)LG.opened);
+    }
+  }
   o.fp = vl::fnv1a(to_text(c));
   return o;
 }
@@ -767,7 +786,7 @@ void exec(const string &sub, const Case &c, bool rc_mode) {
   Outcome o = run_case(c);
   if (o.inconclusive) { vl::stats().count("inconclusive_cases"); return; }
   vl::stats().record(text, o.nontrivial, o.fp);
-  if (!o.verdict.empty()) { vl::report_failure(sub + "_" + o.klass, text, c.prop + ":" + o.klass + ": " + o.verdict, o.klass); if (rc_mode) RC_FAIL(o.verdict); g_failed++; }
+  if (!o.verdict.empty()) { vl::report_failure(sub + "_" + o.klass, text, (o.klass == "fd-ledger" ? vl::env("VERIF_PROP", c.prop.c_str()) : c.prop) + ":" + o.klass + ": " + o.verdict, o.klass); if (rc_mode) RC_FAIL(o.verdict); g_failed++; }
 }
 
 // fault enumeration: every single-fault plan (call x k <= 6 x fault) on fixed base transfers (C09) / every single EINTR (k, burst) per call site (C19)
@@ -826,7 +845,7 @@ void enumerate(const string &prop, long shard, long nshards) {
 }
 
 int run_generated() {
-  string prop = vl::env("VERIF_PROP", "C09");
+  string prop = vl::env("VERIF_NETX_GEN", vl::env("VERIF_PROP", "C09").c_str());   // C20's descriptor-ledger sub-check drives the C09 / C10 generators
   string sub = vl::env("VERIF_SUB", "all");
   long shard = vl::envl("VERIF_SHARD", 0), nshards = vl::envl("VERIF_NSHARDS", 1);
   if (sub == "enum") { enumerate(prop, shard, nshards); return g_failed; }
@@ -839,7 +858,7 @@ string run_replay(const string &text) {
   g_wd_sub = "replay"; g_wd_text = text; g_wd_prop = c.prop;
   Outcome o = run_case(c);
   if (o.inconclusive) { printf("INCONCLUSIVE\n"); return ""; }
-  return o.verdict.empty() ? "" : c.prop + ":" + o.klass + ": " + o.verdict;
+  return o.verdict.empty() ? "" : (o.klass == "fd-ledger" ? vl::env("VERIF_PROP", c.prop.c_str()) : c.prop) + ":" + o.klass + ": " + o.verdict;
 }
 } // namespace
 
